@@ -180,6 +180,10 @@ func resumeCase(t *tr.W, r *rand.Rand, i int) {
 	if r.Intn(6) == 0 {
 		lag = 3 + r.Intn(1500)
 	}
+	if shape == "collude" && i%5 == 0 {
+		// one colluding case of every five starts with the tips less than an interval apart
+		lag = []int{1, 2, interval - 1, 3 + r.Intn(interval-4)}[r.Intn(4)]
+	}
 	var f0 int
 	switch shape {
 	case "collude":
